@@ -21,7 +21,15 @@ package main
 //     fuel-1; a loop whose body calls into the cycle takes the callee as a function parameter (so that the loop stays
 //     structurally recursive on its list); callers outside the cycle pass on a fuel parameter of their own, or the
 //     hint of pcFuelHint (a wrong hint can only produce `outOfFuel`);
-//   * type switches and `x, ok := n.(T)` on nodes are the prelude's `Node.asT` tests, tried in order.
+//   * type switches and `x, ok := n.(T)` on nodes are the prelude's `Node.asT` tests, tried in order;
+//   * an `if` whose branches neither return nor break/continue is a JOIN POINT: a block that yields the variables it
+//     assigns, so that the continuation is not duplicated; in a function on a recursive cycle, what follows the last
+//     top-level join point is emitted as the auxiliary function <fn>_k1 (the cycle members being parameters);
+//   * a method that writes its receiver (a pointer, a map, a pointer to a slice) returns it first; the call binds it back
+//     to the variable or field path it was read from — for `ctx.Getter().Method(…)`, with Getter a one-line
+//     `return c.field`, to that field of the context; such a call with one result may be used as a value.
+// The translator is spread over progcore.go (types), progcore2.go (expressions, calls), progcore3.go (statements, loops),
+// progcore4.go (functions, cycles, the writer).
 
 import (
 	"fmt"
@@ -53,6 +61,12 @@ var coreTargets = []pcTarget{
 	{"combinator", "", "seqDefaultResultHandler", true},
 	{"combinator", "sequence", "parse", false}, {"combinator", "sequence", "parseNext", false}, {"combinator", "sequence", "Parse", false},
 	{"combinator", "Sequence", "Parse", false},
+	{"combinator", "", "Seq", false}, {"combinator", "", "SeqOf", false}, {"combinator", "", "SeqTry", false},
+	{"combinator", "", "SeqFirstOrAll", false}, {"combinator", "", "newMany", false}, {"combinator", "", "newSepBy", false},
+	{"combinator", "", "ReturnSingle", false},
+	{"combinator", "Sequence", "Name", false}, {"combinator", "Sequence", "Token", false},
+	{"combinator", "Sequence", "HandleResult", false}, {"combinator", "Sequence", "Bind", false},
+	{"combinator", "", "Many", false}, {"combinator", "", "Many1", false}, {"combinator", "", "SepBy", false}, {"combinator", "", "SepBy1", false},
 }
 
 // fuel passed by callers outside the cycle (an expression over the callee's parameter names)
@@ -169,6 +183,7 @@ type pcCtx struct {
 	retRaw   func(v string) pgNode
 	resLean  string
 	recvObj  *types.Var
+	liftTop  bool
 	loops    []pgLoopK
 	resT     *types.Tuple
 	inSwch   int
